@@ -608,3 +608,4 @@ RULES = [
 	('14.x', 'range indexing of fixed-size buffers stays in bounds wherever the end is statically bounded (a wire length byte can be 255; rules/provenance.py)', lambda F: provenance.arrays_for_property(F, 'C14', '14.x')),
 	('14.n', 'failure codes: BOLT-4 reasons carry the specification codes, internal reasons alias one of them, the decode table knows every BOLT-4 reason', r14n),
 ]
+RULES.append(('14.P', 'panic sites: no reviewed function that parses / handles untrusted input gained an unwrap / expect / explicit panic / bounds-checked index / length-checked copy / division (rules/provenance.py; panic freedom itself is not decided)', lambda F: provenance.panics_for_property(F, 'C14', '14.P')))
